@@ -302,6 +302,39 @@ func c10Stale(c *core.Ctx, d c10Decoder, r *core.RNG, mode int) {
 	c.Shape("stale", d.name, mode%4)
 }
 
+// ---- monitor 7: values decoded independently are independent
+// Two values decoded from (copies of) the same bytes, then every exported leaf
+// reachable from the first is overwritten through the value's own pointers and
+// slices (a forwarder re-porting a frame, a server clearing a flag). The second
+// value, and a value decoded afterwards, must still be what the bytes say.
+func c10Independent(c *core.Ctx, d c10Decoder, r *core.RNG) {
+	b := d.inputs(r)
+	v1, v2 := d.newv(), d.newv()
+	var e1, e2 error
+	c.Eval(3)
+	if p, _ := core.Guard(func() { e1 = d.dec(v1, append([]byte{}, b...)); e2 = d.dec(v2, append([]byte{}, b...)) }); p || e1 != nil || e2 != nil {
+		return
+	}
+	snap := core.Dump(v2)
+	if p, msg := core.Guard(func() { core.Scribble(v1) }); p {
+		c.Note("scribble walker failed on " + d.name + ": " + short(msg, 120))
+		return
+	}
+	if now := core.Dump(v2); now != snap {
+		c.Violate("C10|shared-between-decoded-values|"+d.name, "two %s values decoded independently from %x: overwriting the fields of one changed the other\n before %s\n after  %s", d.name, b, short(snap, 400), short(now, 400))
+		return
+	}
+	v3 := d.newv()
+	if p, _ := core.Guard(func() { e1 = d.dec(v3, append([]byte{}, b...)) }); p || e1 != nil {
+		c.Violate("C10|shared-between-decoded-values|"+d.name, "decoding %x again after another decoded value was modified: err=%v", b, e1)
+		return
+	}
+	if now := core.Dump(v3); now != snap {
+		c.Violate("C10|shared-between-decoded-values|"+d.name, "a %s decoded from %x after another decoded value had been modified differs from the one decoded before\n before %s\n after  %s", d.name, b, short(snap, 400), short(now, 400))
+	}
+	c.Shape("independent", d.name)
+}
+
 // ---- monitor 2: read-only calls and output aliasing
 func c10ReadOnly(c *core.Ctx, r *core.RNG) {
 	d := genDataCase(r, anyData())
@@ -356,6 +389,11 @@ func c10ReadOnly(c *core.Ctx, r *core.RNG) {
 	}
 	// join frames
 	ja := genJoinAccept(r)
+	if ja.CFList != nil && r.Chance(1, 3) {
+		// a CFList whose type field was left at another value than its payload suggests (zero value,
+		// RFU): whatever Marshal makes of it, it only inspects the frame
+		ja.CFList.CFListType = lorawan.CFListType([]byte{0, 1, 2, 0xff}[r.Intn(4)])
+	}
 	jp := lorawan.PHYPayload{MHDR: lorawan.MHDR{MType: lorawan.JoinAccept}, MACPayload: ja}
 	js := core.Dump(jp)
 	c.Eval(3)
@@ -564,6 +602,9 @@ func runC10(c *core.Ctx) {
 			}
 			if c.Mine("stale", idx) {
 				c10Stale(c, d, c.RNG("stale", idx), int(k))
+			}
+			if c.Mine("independent", idx) {
+				c10Independent(c, d, c.RNG("independent", idx))
 			}
 		}
 	}
